@@ -17,6 +17,15 @@
    Content: a regular file without Linkname gets the bytes the source holds for p
    ([src p]); a hard link shares bytes and inode class with dest/Linkname (error when that
    is missing or a directory).
+   Metadata of a hard link: os.Link gives the inode of dest/Linkname one more name and
+   nothing is written to that inode (rewriteMetadata is skipped for hard-link entries): the
+   new name shows mode, uid, gid, size, mtime, device numbers and xattrs of the entry that
+   dest/Linkname holds AT THAT MOMENT ([link_stat]); only the path (and the Linkname, which is
+   not on disk) are those of the stat that was sent.  A sender whose hard-link entries carry
+   other metadata than their target ("dishonest": fs.Walk never does that, all names of an
+   inode are listed with the same metadata) therefore does not get what it sent — but the
+   notification still carries the stat as sent ([honest_change], [honest_run], [links_meta]
+   are the decidable hypotheses of the theorems that need the two to agree).
    Notification ([notif_of]): delete -> (delete, p); regular file with requested content ->
    (ADD, p, stat, H(hdr stat ++ bytes)) whatever the change kind was (requestAsyncFileData
    calls processChange with ChangeKindAdd); everything else -> (kind, p, stat, H(hdr stat)).
@@ -29,8 +38,9 @@
      regular file at the position of its HandleChange call; the real one is emitted by a
      goroutine when the content has arrived (any later position) — see
      Proofs/AbsDestP.v, replay_delay, for why the position does not matter;
-   * rewriteMetadata through a hard link also re-stamps the other members of the group;
-     the model leaves them alone (walkers give all members of a group the same metadata);
+   * a hard-link entry that names a symbolic link, a device or a fifo (os.Link succeeds and
+     gives that special inode a second name) is kept with the stat as sent; [links_ok]
+     excludes it, no generator produces it;
    * a default-branch entry whose mode has ModeSocket/ModeIrregular/lone ModeCharDevice
      would make receiver.asyncDataFunc fail ("invalid file request"); not modelled;
    * the directory-mtime pass of DiskWriter.Wait is not modelled (directory mtime and size
@@ -75,6 +85,26 @@ Definition efind (p : bytes) (E : list entry) : option entry :=
 Definition src_of (E : list entry) (p : bytes) : bytes :=
   match efind p E with Some e => snd e | None => [] end.
 
+(* what two names of one inode share *)
+Definition ino_meta_eq (t s : stat) : Prop :=
+  st_mode t = st_mode s /\ st_uid t = st_uid s /\ st_gid t = st_gid s /\ st_size t = st_size s
+  /\ st_mtime t = st_mtime s /\ st_devmajor t = st_devmajor s /\ st_devminor t = st_devminor s
+  /\ st_xattrs t = st_xattrs s.
+Definition ino_meta_eqb (t s : stat) : bool :=
+  N.eqb (st_mode t) (st_mode s) && N.eqb (st_uid t) (st_uid s) && N.eqb (st_gid t) (st_gid s)
+  && N.eqb (st_size t) (st_size s) && N.eqb (st_mtime t) (st_mtime s)
+  && N.eqb (st_devmajor t) (st_devmajor s) && N.eqb (st_devminor t) (st_devminor s)
+  && xattrs_eqb (st_xattrs t) (st_xattrs s).
+
+(* the stat a NEW NAME of the inode shown as [t] presents when it was announced as [st]: the
+   inode's metadata under the path (and Linkname) of the announcement *)
+Definition link_stat (t st : stat) : stat :=
+  if is_reg t then
+    {| st_path := st_path st; st_mode := st_mode t; st_uid := st_uid t; st_gid := st_gid t;
+       st_size := st_size t; st_mtime := st_mtime t; st_linkname := st_linkname st;
+       st_devmajor := st_devmajor t; st_devminor := st_devminor t; st_xattrs := st_xattrs t |}
+  else st.
+
 Section Apply.
 Variable src : bytes -> bytes.          (* content the sender holds for a path *)
 
@@ -99,7 +129,7 @@ Definition apply_map (D : dmap) (next : N) (c : change) : option (dmap * N) :=
           if is_hardlink st then
             match alookup (st_linkname st) D with
             | Some t => if st_is_dir (de_stat t) then None
-                        else Some (aset p {| de_stat := st; de_bytes := de_bytes t; de_ino := de_ino t |} D1, next)
+                        else Some (aset p {| de_stat := link_stat (de_stat t) st; de_bytes := de_bytes t; de_ino := de_ino t |} D1, next)
             | None => None
             end
           else Some (aset p {| de_stat := st; de_bytes := if wants_content st then src p else [];
@@ -108,7 +138,7 @@ Definition apply_map (D : dmap) (next : N) (c : change) : option (dmap * N) :=
           if is_hardlink st then
             match alookup (st_linkname st) D with
             | Some t => if st_is_dir (de_stat t) then None
-                        else Some (aset p {| de_stat := st; de_bytes := de_bytes t; de_ino := de_ino t |} D, next)
+                        else Some (aset p {| de_stat := link_stat (de_stat t) st; de_bytes := de_bytes t; de_ino := de_ino t |} D, next)
             | None => None
             end
           else Some (aset p {| de_stat := st; de_bytes := if wants_content st then src p else [];
@@ -143,6 +173,36 @@ Fixpoint apply_all (cs : list change) (D : dmap) (next : N) : dmap * N * list ch
       let '(D2, n2, done, e) := apply_all r D' next' in (D2, n2, c :: done, e)
     end
   end.
+
+(* ---- honest hard-link entries: the stat announced for a new name of an inode is what that
+        name then shows, i.e. the entry carries the metadata of the entry it names ([eqb]
+        = which fields are compared; [stat_eqb] = all of them) ---- *)
+Definition honest_change_by (eqb : stat -> stat -> bool) (D : dmap) (c : change) : bool :=
+  match c with
+  | (KDelete, _, _) => true
+  | (_, _, Some st) =>
+    if is_hardlink st then
+      match alookup (st_linkname st) D with
+      | Some t => eqb (link_stat (de_stat t) st) st
+      | None => true
+      end
+    else true
+  | (_, _, None) => true
+  end.
+
+(* ... for every change of a run, each judged in the state it is applied to *)
+Fixpoint honest_run_by (eqb : stat -> stat -> bool) (cs : list change) (D : dmap) (next : N) : bool :=
+  match cs with
+  | [] => true
+  | c :: r =>
+    match apply_map D next c with
+    | None => true
+    | Some (D', next') => honest_change_by eqb D c && honest_run_by eqb r D' next'
+    end
+  end.
+
+Definition honest_change := honest_change_by stat_eqb.
+Definition honest_run := honest_run_by stat_eqb.
 
 Variable H : bytes -> bytes.            (* the hash of the caller's ContentHasher *)
 Variable hdr : stat -> bytes.           (* what the ContentHasher writes for the stat first *)
@@ -229,12 +289,33 @@ Definition receive_abs (m : rmode) (d : differ) (A B : list entry) : dstate :=
 
 End Receive.
 
+(* every hard-link entry the writer applies in this transfer carries the metadata of the entry
+   it names, as the destination shows it at that moment *)
+Definition recv_honest_by (eqb : stat -> stat -> bool) (m : rmode) (d : differ) (A B : list entry) : bool :=
+  let LA := match m with Fresh => map fst A | Merge => [] end in
+  honest_run_by (src_of B) eqb (diff (fun s => s) d LA (map fst B)) (dest_of A) (N.of_nat (length A)).
+Definition recv_honest := recv_honest_by stat_eqb.
+
 (* ---------------------------------------------------------------- hypotheses of the theorems *)
 (* a hard-link entry names an earlier regular entry of the same listing with the same bytes *)
 Definition links_ok (B : list entry) : Prop :=
   forall sb bb, In (sb, bb) B -> is_hardlink sb = true ->
   exists st bt, In (st, bt) B /\ st_path st = st_linkname sb /\
                 compare_path (st_path st) (st_path sb) = Lt /\ is_reg st = true /\ bt = bb.
+
+(* honest sender: a hard-link entry carries the metadata of the entry it names (all names of
+   an inode are listed with the same metadata: what every walk produces) *)
+Definition links_meta (B : list entry) : Prop :=
+  forall sb bb st bt, In (sb, bb) B -> is_hardlink sb = true -> In (st, bt) B ->
+  st_path st = st_linkname sb -> ino_meta_eq st sb.
+
+(* xattrs are not part of the identity key: a link target that stays in place keeps the
+   xattrs the destination had.  Needed only where the destination must show the stat of a new
+   hard link EXACTLY as announced (xattrs included). *)
+Definition link_xattrs_kept (d : differ) (A B : list entry) : Prop :=
+  forall sb bb st bt sa ba, In (sb, bb) B -> is_hardlink sb = true -> In (st, bt) B ->
+  st_path st = st_linkname sb -> In (sa, ba) A -> st_path sa = st_path st ->
+  same_file d sa st = true -> st_xattrs sa = st_xattrs st.
 
 (* same identity key => same bytes (regular files and hard links) *)
 Definition identity_faithful (d : differ) (A B : list entry) : Prop :=
@@ -247,6 +328,16 @@ Definition links_ok_b (B : list entry) : bool :=
      existsb (fun t => bytes_eqb (st_path (fst t)) (st_linkname (fst e))
                        && path_ltb (st_path (fst t)) (st_path (fst e))
                        && is_reg (fst t) && bytes_eqb (snd t) (snd e)) B) B.
+Definition links_meta_b (B : list entry) : bool :=
+  forallb (fun e => negb (is_hardlink (fst e)) ||
+     forallb (fun t => negb (bytes_eqb (st_path (fst t)) (st_linkname (fst e)))
+                       || ino_meta_eqb (fst t) (fst e)) B) B.
+Definition link_xattrs_kept_b (d : differ) (A B : list entry) : bool :=
+  forallb (fun e => negb (is_hardlink (fst e)) ||
+     forallb (fun t => negb (bytes_eqb (st_path (fst t)) (st_linkname (fst e))) ||
+        forallb (fun a => negb (bytes_eqb (st_path (fst a)) (st_path (fst t)))
+                          || negb (same_file d (fst a) (fst t))
+                          || xattrs_eqb (st_xattrs (fst a)) (st_xattrs (fst t))) A) B) B.
 Definition identity_faithful_b (d : differ) (A B : list entry) : bool :=
   forallb (fun ea => forallb (fun eb =>
      negb (bytes_eqb (st_path (fst ea)) (st_path (fst eb))) || negb (same_file d (fst ea) (fst eb))
@@ -259,6 +350,17 @@ Definition view_equiv (o : option dentry) (e : option entry) : Prop :=
   | None, None => True
   | Some x, Some (sb, bb) =>
       same_file DMetadata (de_stat x) sb = true /\ (is_reg sb = true -> de_bytes x = bb)
+  | _, _ => False
+  end.
+
+(* the same without a claim on the identity key of a hard-link entry (whose metadata is that
+   of the inode it joined, whatever the sender announced): a non-directory with the bytes *)
+Definition view_equiv_w (o : option dentry) (e : option entry) : Prop :=
+  match o, e with
+  | None, None => True
+  | Some x, Some (sb, bb) =>
+      (is_hardlink sb = false -> same_file DMetadata (de_stat x) sb = true) /\
+      st_is_dir (de_stat x) = st_is_dir sb /\ (is_reg sb = true -> de_bytes x = bb)
   | _, _ => False
   end.
 
@@ -277,3 +379,15 @@ Definition fresh_target (d : differ) (A B : list entry) (p : bytes) : Prop :=
 Definition fresh_entry (B : list entry) (n0 : N) (p : bytes) (o : option dentry) : Prop :=
   exists e b, o = Some e /\ In b (map fst B) /\ st_path b = p /\ de_stat e = b /\ n0 <= de_ino e.
 
+(* a hard-link entry of the source that is new, or whose identity key differs from what the old
+   destination listed at its path: the writer links it *)
+Definition link_changed (d : differ) (A B : list entry) (p : bytes) : Prop :=
+  exists b, In b (map fst B) /\ st_path b = p /\ is_hardlink b = true /\
+    (notin (map fst A) p \/
+     exists a, In a (map fst A) /\ st_path a = p /\ same_file d a b = false).
+(* p is one more name of the inode shown at the path its entry names: same inode class, same
+   bytes, and THAT inode's metadata under the announced path *)
+Definition joined_entry (B : list entry) (D : dmap) (p : bytes) : Prop :=
+  exists b e t, In b (map fst B) /\ st_path b = p /\ alookup p D = Some e /\
+    alookup (st_linkname b) D = Some t /\ de_ino e = de_ino t /\ de_bytes e = de_bytes t /\
+    de_stat e = link_stat (de_stat t) b.
